@@ -34,6 +34,7 @@ const (
 
 func TestMain(m *testing.M) {
 	vlib.Rule("C33 (cluster): files of 1-3 chunks; per chunk a data class {empty, small/large text, small/large random, gzip magic + bad header, gzip header + garbage, real gzip (whole/truncated), compressible head + random tail and the reverse, content-sniffable prefixes, arbitrary short bytes} x file name {none, .txt/.jpg/.gz/..., bare extensions, quotes, backslashes, unicode, 300 chars} x mime {none, text/*, image/*, xml, json, octet-stream, zstd} x cipher on/off x pre-compressed input (only real gzip) x API {UploadData, Upload(BytesReader), Upload(io.Reader)} uploaded to a `weed volume` child; fetched with filer.StreamContent (whole + random ranges over the chunk list), util.ReadUrlAsStream and util.ReadUrl (full chunk and random range). Oracle: bytes == original (slice for ranges). Non-trivial = a chunk the client compressed or encrypted, a pre-compressed chunk, or gzip-looking/malformed content.")
+	vlib.Rule("C33 (overlapping uploads): upload A (64 KiB-1 MiB, random/text, cipher/gzip/plain/pre-gzipped drawn) is held inside operation.HttpClient after 1-65536 bytes of its request body were consumed, 1-3 complete uploads B (mostly longer than the consumed part and shorter than A) run through the real client, then A is sent; and batches of 4-32 uploads (many short, some 200 KB-2 MB) are issued by goroutines released together. All against the `weed volume` child, distinct file ids. Oracle: every acknowledged upload reads back exactly its caller's bytes; an upload error alone is no violation. All cases non-trivial.")
 	vlib.Rule("C33 (hostile): raw multipart uploads that claim Content-Encoding: gzip with malformed streams (bad header, truncated, corrupt body/CRC/ISIZE) to the volume child, then GET plain / Accept-Encoding: gzip / Range and the client readers: every request must get an HTTP response, no handler may panic, no process may die.")
 	vlib.Rule("C33 (in-process): util.DecompressData / MaybeDecompressData / IsGzippedContent, GzipData, Encrypt/Decrypt and the http_util readers on arbitrary, structured-malformed and valid inputs: valid gzip decodes to exactly the reference, non-gzip is passed through with UnsupportedCompression, malformed input returns without panicking. Non-trivial = gzip-magic input or an encrypt/compress round trip.")
 	vlib.Assume("the weed binary is built from /repo's working tree by the driver; one master + one volume server per shard process; callers' precondition kept: isInputCompressed is only set for real gzip streams")
